@@ -47,8 +47,10 @@ def listing(home):
 class KillPoints:
     """sys.monitoring tool: counts LINE or CALL/C_RETURN events in watched files, SIGKILLs itself at the k-th"""
 
-    def __init__(self, mode, at, yield_cfg=None, real_sleep=None):
+    def __init__(self, mode, at, yield_cfg=None, real_sleep=None, pause=None):
         self.mode, self.at = mode, at
+        self.pause = pause          # {"ready": path, "resume": path}: SUSPEND at the k-th event instead of dying
+        self.only_base = bool((pause or {}).get("only_library_lines"))
         self.count = 0
         self.active = False
         self.sig = []
@@ -75,6 +77,13 @@ class KillPoints:
     def fire(self, what):
         self.count += 1
         if self.at is not None and self.count == self.at:
+            if self.pause:
+                # stand still exactly here while another loader runs to completion, then carry on
+                open(self.pause["ready"], "w").close()
+                deadline = time.monotonic() + float(self.pause.get("timeout", 60))
+                while not os.path.exists(self.pause["resume"]) and time.monotonic() < deadline:
+                    self.real_sleep(0.001)
+                return
             sys.stdout.flush()
             os.kill(os.getpid(), signal.SIGKILL)
             time.sleep(10)
@@ -91,6 +100,8 @@ class KillPoints:
             if self.at is None:
                 return None
         if self.mode == "line":
+            if self.only_base and os.path.realpath(code.co_filename) != self.base_file:
+                return None
             self.fire(("L", os.path.basename(code.co_filename), line))
         return None
 
@@ -177,7 +188,8 @@ def main(argv):
     kp = None
     kill = spec.get("kill")
     if kill or spec.get("yield"):
-        kp = KillPoints((kill or {}).get("events", "line"), (kill or {}).get("at"), spec.get("yield"), real_sleep)
+        kp = KillPoints((kill or {}).get("events", "line"), (kill or {}).get("at"), spec.get("yield"), real_sleep,
+                        pause=(kill or {}).get("pause"))
         kp.install()
 
     results = []
